@@ -53,7 +53,9 @@ _META_ALL = {
                 "resulting repeated toggles), every handshake the reference relation EpOut.tla allows and every "
                 "consumer schedule within small bounds and proves exactly-once in-order delivery of ACKed payloads, "
                 "first/last marks and agreement with the host's own bookkeeping. The real USBStreamOutEndpoint inside "
-                "a real USBDevice (receiver, boundary detector, FIFO real) is driven with TLC-generated behaviours and "
+                "a real USBDevice (receiver, boundary detector, FIFO real) - and inside the same packet layer assembled "
+                "with the link speed pinned to high speed / full speed at 60 MHz, so that the handshake is decided in the "
+                "cycle the last byte is written - is driven with TLC-generated behaviours and "
                 "seeded random host/consumer schedules; every recorded trace (tokens, data, handshakes, every output "
                 "beat with first/last) is validated by TLC against the relation.",
         "note": "Host packets never exceed MaxPkt. With >= MaxPkt free at token time a good packet must be ACKed; with "
